@@ -26,3 +26,21 @@ reg("C09", level="exploration", overlay="world",
     assumptions=["header bytes 1..47 take four patterns, not all values (the request predicate reads only byte 0)",
                  "trailing data is zeros/0xff/constant or a project-encoded NTS request (optionally with one flipped bit)",
                  "kernel socket behaviour is emulated by shim/vnet + shim/vunix"])
+
+reg("C06", level="model_checking", overlay="plain",
+    technique="stateless depth-first exploration of operation histories (deviation-bounded) on the real handler, step-relation oracle against the store's pre-state",
+    level_text="Every history inside the stated bounds is executed on the real handleRequest/updateTXTimestamp (through verif hooks) and every transition is judged against the statement using the store's own pre-state; states/transitions are counted, traces are implementation runs.",
+    budget={"quick": 150, "thorough": 1500}, workers={"quick": 16, "thorough": 16},
+    assumptions=["timestamps stay inside one NTP era", "alphabets are relative (collide / +1ns / +1s / -1s / other client's value), not all of int64",
+                 "the kernel transmit timestamp is an input of updateTXTimestamp (listener bookkeeping is covered by the listener-level scenario)"])
+
+reg("C07", level="model_checking", overlay="plain",
+    technique="exhaustive small-capacity histories (tssCap re-valued to 3 via overlay) with canonical-state pruning + run against the shipped capacity + preemption-bounded lock-level schedules + free-running race-detector pass",
+    level_text="Structural invariants (map/heap agreement, back-pointers, heap order, key vs newest exchange, bounds) and the eviction rule are evaluated on every transition of all histories inside the bound on the real code; schedules of concurrent handlers are enumerated at lock level and compared with all sequential merges; data races are sought by a separate free-running -race pass.",
+    budget={"quick": 150, "thorough": 1500}, workers={"quick": 16, "thorough": 16},
+    variants=[{"name": "cap3", "overlay": "world", "overlay_extra": "tsscap=3"},
+              {"name": "realcap", "overlay": "plain", "workers": 3},
+              {"name": "race", "overlay": "plain", "race": True, "workers": 1, "args": ["-vmode", "race"]}],
+    assumptions=["capacity behaviour is explored exhaustively on a cap-3 instance (constant re-valued in the compiled copy, nothing else changed) and bound to the shipped 2^20 by one full-size run per arrival order",
+                 "timestamps stay inside one NTP era (ordering across the 2036 boundary is a recorded limitation)",
+                 "the race pass is a free-running execution, not an enumeration"])
